@@ -113,6 +113,8 @@ pub enum Op {
     ProcNew { ctor: ProcCtor, store: usize },
     /// pathrs_errorinfo on the id kept in id-slot `idslot`
     ErrorInfo { idslot: usize },
+    /// pathrs_errorinfo on an arbitrary value that was never returned as an id
+    ErrorInfoRaw { id: i32 },
     /// raw per-thread setresuid(-1, uid, -1) (harness action on the caller thread)
     SetEuid { uid: u32 },
     /// harness action performed by the supervisor at this point
@@ -178,7 +180,7 @@ impl OpSpec {
             Op::ProcOpen { follow: false, .. } => "proc_open",
             Op::ProcReadlink { .. } => "proc_readlink",
             Op::ProcNew { .. } => "proc_new",
-            Op::ErrorInfo { .. } => "errorinfo",
+            Op::ErrorInfo { .. } | Op::ErrorInfoRaw { .. } => "errorinfo",
             Op::SetEuid { .. } => "seteuid",
             Op::Sup { .. } => "sup",
             Op::CloseSlot { .. } => "close_slot",
@@ -225,6 +227,7 @@ impl OpSpec {
             }
             Op::ProcNew { ctor, store } => json!(["proc_new", format!("{ctor:?}"), store]),
             Op::ErrorInfo { idslot } => json!(["errorinfo", idslot]),
+            Op::ErrorInfoRaw { id } => json!(["errorinfo_raw", id]),
             Op::SetEuid { uid } => json!(["seteuid", uid]),
             Op::Sup { muts } => json!(["sup", muts.iter().map(|m| m.to_json()).collect::<Vec<_>>()]),
             Op::CloseSlot { slot } => json!(["close_slot", slot]),
@@ -299,6 +302,7 @@ impl OpSpec {
                 store: n(2) as usize,
             },
             "errorinfo" => Op::ErrorInfo { idslot: n(1) as usize },
+            "errorinfo_raw" => Op::ErrorInfoRaw { id: n(1) as i32 },
             "seteuid" => Op::SetEuid { uid: n(1) as u32 },
             "sup" => Op::Sup {
                 muts: a.get(1)?.as_array()?.iter().filter_map(crate::world::Mutation::from_json).collect(),
@@ -658,7 +662,7 @@ fn exec_rust(spec: &OpSpec, rootfd: i32) -> Outcome {
                 Err(e) => rust_err(e),
             }
         }
-        Op::ErrorInfo { .. } | Op::CBadArg { .. } => exec_c(spec, rootfd),
+        Op::ErrorInfo { .. } | Op::ErrorInfoRaw { .. } | Op::CBadArg { .. } => exec_c(spec, rootfd),
         _ => Outcome::Harness(-1),
     }
 }
@@ -729,8 +733,12 @@ fn exec_c(spec: &OpSpec, rootfd: i32) -> Outcome {
                 let b0 = cbase(*base);
                 c_readlink(*bufsz, |b, n| pathrs_proc_readlink(b0, p.as_ptr(), b, n), keep)
             }
-            Op::ErrorInfo { idslot } => {
-                let id = IDSLOTS[*idslot].load(Ordering::SeqCst);
+            Op::ErrorInfo { .. } | Op::ErrorInfoRaw { .. } => {
+                let id = match &spec.op {
+                    Op::ErrorInfo { idslot } => IDSLOTS[*idslot].load(Ordering::SeqCst),
+                    Op::ErrorInfoRaw { id } => *id,
+                    _ => 0,
+                };
                 let p = pathrs_errorinfo(id);
                 if p.is_null() {
                     Outcome::Info(id, None)
